@@ -2623,8 +2623,17 @@ class Pop3Ops:
             return
         box = st["inbox"]
         argn = None
+        tok_ = line.split()[1] if len(line.split()) > 1 else None
+        if tok_ is not None and not re.fullmatch(r"[0-9]+", tok_):
+            # not a message number (RFC 1939: decimal digits): whatever Python's int() makes of "+1" or "1_0"
+            self.C("c20_invalid_number")
+            if ok:
+                self.V("C20", "pop3_invalid_number_accepted", cmd=line, status=status[:60].decode("latin-1"))
+                if verb == "DELE":
+                    st["dele_unknown"] = True
+            return
         try:
-            argn = int(line.split()[1]) if len(line.split()) > 1 else None
+            argn = int(tok_) if tok_ is not None else None
         except ValueError:
             argn = None
         if verb == "UIDL" and ok:
